@@ -112,7 +112,7 @@ fn entry_jc2m(args: &[&str]) -> String {
     let (Some(r), Some(script)) = (args[1].parse::<usize>().ok(), parse_net_args(&args[2 ..])) else {
         return "bad-case".into();
     };
-    run_q(script, || jc2m::query_with_timeout(&IP, port, timeout(r)), show_jc2m)
+    run_q(script, || jc2m::query_with_timeout(&crate::net::ip(), port, timeout(r)), show_jc2m)
 }
 
 crate::impl_view_dump!(
